@@ -27,6 +27,135 @@ UNDECIDED = ["byte-exact delivery under all interleavings of control calls (need
 LI = "lazy_io"
 
 
+def _calls_self(node, M):
+    return [n.func.attr for n in ast.walk(node) if isinstance(n, ast.Call) and isinstance(n.func, ast.Attribute)
+            and unparse(n.func.value) == "self" and n.func.attr in M.methods]
+
+
+def _has_join(node):
+    return any(isinstance(n, ast.Call) and isinstance(n.func, ast.Attribute) and n.func.attr == "join" for n in ast.walk(node))
+
+
+def _reaches_join(M):
+    """statement -> does it (or a method of the class it calls, transitively) contain a join() call"""
+    memo = {}
+
+    def meth(name, depth=0):
+        if name in memo:
+            return memo[name]
+        memo[name] = False
+        fn = M.methods[name]
+        memo[name] = _has_join(fn) or (depth < 5 and any(meth(c, depth + 1) for c in _calls_self(fn, M)))
+        return memo[name]
+
+    def reach(st):
+        return _has_join(st) or any(meth(c) for c in _calls_self(st, M))
+    return reach
+
+
+def _close_loops(M, close):
+    """the ``while`` loops that join the players: in close() itself or in a method of the class it calls"""
+    seen, todo, out, owner = set(), ["close"], [], {}
+    while todo:
+        name = todo.pop()
+        if name in seen:
+            continue
+        seen.add(name)
+        fn = M.methods[name] if name != "close" else close
+        for n in ast.walk(fn):
+            if isinstance(n, ast.While) and _has_join(n) and not any(
+                    isinstance(x, ast.While) and x is not n and _has_join(x) for x in ast.walk(n)):
+                out.append(n)
+                owner[id(n)] = name
+        todo.extend(_calls_self(fn, M))
+    return out, owner
+
+
+def _close_loop_rule(chk, M, close, loops, W):
+    """empty list: the loop ends (and nothing is stopped or joined); a listed thread: one element of the list is taken,
+    stopped unless ``wait`` and joined, and the loop goes on - whatever the spelling of the emptiness test"""
+    from ..dtable import Facts, walk, holds, RAISE
+    where = W("AudioIO.close")
+    ok = len(loops) == 1
+    chk.decide(ok, "C17.close", where, "one loop joins the players (found %d)" % len(loops),
+               why="every player must be stopped (when not waiting) and joined before the backend is terminated", node=close)
+    if not ok:
+        return
+    loop = loops[0]
+
+    def is_elem(v, names):
+        if isinstance(v, ast.Name):
+            return v.id in names
+        return isinstance(v, ast.Subscript) and unparse(v.value) == "self._threads" and unparse(v.slice) in ("0", "-1")
+
+    def scenario(n, wait):
+        F = Facts(lens={"self._threads": n}, truths={"self.wait": wait})
+        exc = {"self._threads[0]": "IndexError", "self._threads[-1]": "IndexError"} if n == 0 else {}
+        names = set()
+
+        def rb(name, value, F_):
+            F_.forget(name)
+            names.discard(name)
+            v = value
+            if isinstance(v, ast.Call) and isinstance(v.func, ast.Attribute) and unparse(v.func.value) == "self" \
+                    and not v.args and not v.keywords and v.func.attr in M.methods:
+                sub = walk(docstring_free(M.methods[v.func.attr].body), F_, where, strict=True, flow=True, exc=exc)
+                if sub.end == "return" and sub.last.value is not None:
+                    v = sub.last.value
+                elif sub.end in ("return", "fall"):
+                    v = ast.Constant(value=None)
+                else:
+                    raise AnalysisError("%s: %s does not return in this scenario" % (where, unparse(value)))
+            if isinstance(v, ast.Constant) and v.value is None:
+                F_.none.add(name)
+            elif is_elem(v, names):
+                F_.kinds[name] = {"AudioThread"}
+                names.add(name)
+        r = holds(loop.test, F)
+        if r is None or r is RAISE:
+            raise AnalysisError("%s: loop test not described by the scenario: %s" % (where, unparse(loop.test)))
+        if not r:
+            return "exit", [], names
+        wk = walk(loop.body, F, where, rebind=rb, strict=True, flow=True, exc=exc)
+        calls = []
+        for st in wk.ran:
+            for c in ast.walk(st):
+                if isinstance(c, ast.Call) and isinstance(c.func, ast.Attribute) and c.func.attr in ("stop", "join"):
+                    calls.append((c.func.attr, unparse(c.func.value) in names))
+        return wk.end, calls, names
+    try:
+        for wait in (True, False):
+            end, calls, _ = scenario(0, wait)
+            chk.decide(end in ("exit", "break") and not calls, "C17.close", where,
+                       "no thread listed (wait=%s): the loop ends" % wait,
+                       why="with an empty list the loop must stop without touching a thread (it %s, calls %s)"
+                           % ({"raise": "raises", "fall": "goes on", "continue": "goes on", "return": "returns from close()"}.get(end, end),
+                              [c for c, _ in calls]), node=loop)
+            end, calls, names = scenario(1, wait)
+            want = [("join", True)] if wait else [("stop", True), ("join", True)]
+            chk.decide(end in ("fall", "continue") and calls == want, "C17.close", where,
+                       "a thread is listed (wait=%s): %s, and the loop goes on" % (wait, " then ".join(c for c, _ in want)),
+                       why="every player must be stopped (when not waiting) and joined: the loop goes on until the list is "
+                           "empty (loop %s; calls on the listed thread: %s)"
+                           % ({"exit": "ends", "break": "ends", "return": "returns", "raise": "raises"}.get(end, "goes on"),
+                              [c if on else c + " (other object)" for c, on in calls]), node=loop)
+    except AnalysisError as ex:
+        chk.defer(str(ex))
+    # the list is read under its lock
+    for name, fn in M.methods.items():
+        fn = close if name == "close" else fn
+        for n in ast.walk(fn):
+            if isinstance(n, ast.Subscript) and unparse(n.value) == "self._threads" and isinstance(n.ctx, ast.Load):
+                p = getattr(n, "_parent", None)
+                locked = False
+                while p is not None and p is not fn:
+                    if isinstance(p, ast.With) and any(unparse(i.context_expr) == "self.lock" for i in p.items):
+                        locked = True
+                    p = getattr(p, "_parent", None)
+                chk.decide(locked, "C17.close", W("AudioIO." + name), "%s read under self.lock" % short(n),
+                           why="the list is shared with the players' epilogues", node=n)
+
+
 def run(chk, repo):
     mod = repo.mod(LI)
     W = lambda q: "%s:%s" % (mod.relpath, q)
@@ -139,23 +268,8 @@ def run(chk, repo):
     # ------------------------------------------------------------- close loop
     chk.rule("C17.close", "close(): while threads remain: take the first under self.lock, stop it unless wait, join it; "
                           "run() epilogue: under its lock, if still listed: close the stream and thread_finished(self)")
-    loops = [n for n in ast.walk(close) if isinstance(n, ast.While) and "self._threads[0]" in unparse(n)]
-    ok = len(loops) == 1
-    if ok:
-        lb = loops[0].body
-        w0 = unparse(lb[0]) if lb else ""
-        # the empty list ends the loop: either IndexError -> break, or an emptiness test -> break, under the lock
-        ends = ("except IndexError:\n        break" in w0) or ("if not self._threads:\n        break" in w0) \
-            or ("if len(self._threads) == 0:\n        break" in w0)
-        ok = len(lb) == 3 and isinstance(lb[0], ast.With) and unparse(lb[0].items[0].context_expr) == "self.lock" \
-            and "thread = self._threads[0]" in w0 and ends \
-            and unparse(lb[1]) == "if not self.wait:\n    thread.stop()" and unparse(lb[2]) == "thread.join()"
-    if ok:
-        t_ = loops[0].test
-        ok = isinstance(t_, ast.Constant) and bool(t_.value) is True or unparse(t_) in ("self._threads", "len(self._threads) > 0")
-    chk.decide(ok, "C17.close", W("AudioIO.close"), "for every listed thread: stop unless wait, then join",
-               why="every player must be stopped (when not waiting) and joined before the backend is terminated: the "
-                   "loop goes on until the list is empty", node=close)
+    loops, loop_owner = _close_loops(M, close)
+    _close_loop_rule(chk, M, close, loops, W)
     for dn in ("__exit__", "__del__"):
         dm = M.methods.get(dn)
         if dm is not None:
@@ -168,10 +282,12 @@ def run(chk, repo):
         r_ = holds(a_.test, Facts(lens={"self._pa._streams": 0}))
         chk.decide(r_ is True or r_ is None, "C17.close", W("AudioIO.close"), short(a_),
                    why="with every device stream closed the assertion must hold, or close() raises instead of terminating", node=a_)
-    if loops:
-        tpos = terms[0].lineno
-        chk.decide(loops[0].end_lineno < tpos, "C17.close", W("AudioIO.close"), "threads are joined before terminate()",
-                   why="terminating the backend under running players", node=close)
+    if loops and withs:
+        reach = _reaches_join(M)
+        order = [("join" if reach(st) else "terminate") for st in first.ran if reach(st) or has_term(st)]
+        chk.decide(order[:1] == ["join"] and "join" not in order[order.index("terminate"):] if "terminate" in order else False,
+                   "C17.close", W("AudioIO.close"), "threads are joined before terminate()",
+                   why="terminating the backend under running players (order of the statements that run: %s)" % order, node=close)
     run_ = T.methods["run"]
     rb = docstring_free(run_.body)
     epi = rb[-1]
